@@ -22,6 +22,7 @@ package ro
 
 //@ func (*publishSubjectImpl).NextWithContext
 //@   props C01 C02 C10 C13
+//@   binds ctx value
 //@   ensures [one-critical-section|C10,C13] count(lock.mu) == 1
 //@   inline (*publishSubjectImpl).broadcastNext
 //@   track observers.* elem.* hook.* call.NewNotification*
@@ -32,6 +33,7 @@ package ro
 
 //@ func (*publishSubjectImpl).ErrorWithContext
 //@   props C01 C02 C10 C13
+//@   binds ctx err
 //@   ensures [one-critical-section|C10,C13] count(lock.mu) == 1
 //@   inline (*publishSubjectImpl).broadcastError (*publishSubjectImpl).unsubscribeAll
 //@   track observers.* elem.* hook.* call.NewNotification*
@@ -41,6 +43,7 @@ package ro
 
 //@ func (*publishSubjectImpl).CompleteWithContext
 //@   props C01 C02 C10 C13
+//@   binds ctx
 //@   ensures [one-critical-section|C10,C13] count(lock.mu) == 1
 //@   inline (*publishSubjectImpl).broadcastComplete (*publishSubjectImpl).unsubscribeAll
 //@   track observers.* elem.* hook.* call.NewNotification*
@@ -50,6 +53,7 @@ package ro
 
 //@ func (*publishSubjectImpl).SubscribeWithContext
 //@   props C01 C03 C10 C13
+//@   binds subscriberCtx destination
 //@   ensures [one-critical-section|C10,C13] count(lock.mu) == 1 && heldat(mu, sub.ANY) && heldat(mu, loop.ANY)
 //@   alias sub=NewSubscriber()
 //@   track call.NewSubscriber observers.* NewSubscriber().*
@@ -62,6 +66,7 @@ package ro
 
 //@ func (*publishSubjectImpl).SubscribeWithContext$1
 //@   props C03 C10
+//@   binds index
 //@   track observers.*
 //@   ensures [teardown-unregisters-own-entry|C03,C10] trace(observers.Delete(index))
 
@@ -90,6 +95,7 @@ package ro
 
 //@ func (*behaviorSubjectImpl).NextWithContext
 //@   props C01 C02 C10 C13
+//@   binds ctx value
 //@   ensures [one-critical-section|C10,C13] count(lock.mu) == 1
 //@   inline (*behaviorSubjectImpl).broadcastNext
 //@   track observers.* elem.* hook.* call.NewNotification*
@@ -100,6 +106,7 @@ package ro
 
 //@ func (*behaviorSubjectImpl).ErrorWithContext
 //@   props C01 C02 C10 C13
+//@   binds ctx err
 //@   ensures [one-critical-section|C10,C13] count(lock.mu) == 1
 //@   inline (*behaviorSubjectImpl).broadcastError (*behaviorSubjectImpl).unsubscribeAll
 //@   track observers.* elem.* hook.* call.NewNotification*
@@ -109,6 +116,7 @@ package ro
 
 //@ func (*behaviorSubjectImpl).CompleteWithContext
 //@   props C01 C02 C10 C13
+//@   binds ctx
 //@   ensures [one-critical-section|C10,C13] count(lock.mu) == 1
 //@   inline (*behaviorSubjectImpl).broadcastComplete (*behaviorSubjectImpl).unsubscribeAll
 //@   track observers.* elem.* hook.* call.NewNotification*
@@ -118,6 +126,7 @@ package ro
 
 //@ func (*behaviorSubjectImpl).SubscribeWithContext
 //@   props C01 C03 C10 C13
+//@   binds subscriberCtx destination
 //@   ensures [one-critical-section|C10,C13] count(lock.mu) == 1 && heldat(mu, sub.ANY) && heldat(mu, loop.ANY)
 //@   alias sub=NewSubscriber()
 //@   track call.NewSubscriber observers.* NewSubscriber().*
@@ -130,6 +139,7 @@ package ro
 
 //@ func (*behaviorSubjectImpl).SubscribeWithContext$1
 //@   props C03 C10
+//@   binds index
 //@   track observers.*
 //@   ensures [teardown-unregisters-own-entry|C03,C10] trace(observers.Delete(index))
 
@@ -158,6 +168,7 @@ package ro
 
 //@ func (*asyncSubjectImpl).NextWithContext
 //@   props C01 C02 C10 C13
+//@   binds ctx value
 //@   ensures [one-critical-section|C10,C13] count(lock.mu) == 1
 //@   track observers.* elem.* hook.* call.NewNotification*
 //@   ensures [open-only-remembers|C01,C10] atlock(status) == 0 ==> atunlock(hasValue) == true && atunlock(value).A == ctx && atunlock(value).B == value && trace()
@@ -166,6 +177,7 @@ package ro
 
 //@ func (*asyncSubjectImpl).ErrorWithContext
 //@   props C01 C02 C10 C13
+//@   binds ctx err
 //@   ensures [one-critical-section|C10,C13] count(lock.mu) == 1
 //@   inline (*asyncSubjectImpl).broadcastError (*asyncSubjectImpl).unsubscribeAll
 //@   track observers.* elem.* hook.* call.NewNotification*
@@ -175,6 +187,7 @@ package ro
 
 //@ func (*asyncSubjectImpl).CompleteWithContext
 //@   props C01 C02 C10 C13
+//@   binds ctx
 //@   ensures [one-critical-section|C10,C13] count(lock.mu) == 1
 //@   inline (*asyncSubjectImpl).broadcastComplete (*asyncSubjectImpl).broadcastNext (*asyncSubjectImpl).unsubscribeAll
 //@   track observers.* elem.* hook.* call.NewNotification*
@@ -185,6 +198,7 @@ package ro
 
 //@ func (*asyncSubjectImpl).SubscribeWithContext
 //@   props C01 C03 C10 C13
+//@   binds subscriberCtx destination
 //@   ensures [one-critical-section|C10,C13] count(lock.mu) == 1 && heldat(mu, sub.ANY) && heldat(mu, loop.ANY)
 //@   alias sub=NewSubscriber()
 //@   track call.NewSubscriber observers.* NewSubscriber().*
@@ -198,6 +212,7 @@ package ro
 
 //@ func (*asyncSubjectImpl).SubscribeWithContext$1
 //@   props C03 C10
+//@   binds index
 //@   track observers.*
 //@   ensures [teardown-unregisters-own-entry|C03,C10] trace(observers.Delete(index))
 
@@ -227,6 +242,7 @@ package ro
 
 //@ func (*replaySubjectImpl).NextWithContext
 //@   props C01 C02 C10 C11 C13
+//@   binds s ctx value
 //@   ensures [one-critical-section|C10,C13] count(lock.mu) == 1
 //@   requires s.bufferSize >= -1
 //@   inline (*replaySubjectImpl).broadcastNext
@@ -241,6 +257,7 @@ package ro
 
 //@ func (*replaySubjectImpl).ErrorWithContext
 //@   props C01 C02 C10 C13
+//@   binds ctx err
 //@   ensures [one-critical-section|C10,C13] count(lock.mu) == 1
 //@   inline (*replaySubjectImpl).broadcastError (*replaySubjectImpl).unsubscribeAll
 //@   track observers.* elem.* hook.* call.NewNotification*
@@ -250,6 +267,7 @@ package ro
 
 //@ func (*replaySubjectImpl).CompleteWithContext
 //@   props C01 C02 C10 C13
+//@   binds ctx
 //@   ensures [one-critical-section|C10,C13] count(lock.mu) == 1
 //@   inline (*replaySubjectImpl).broadcastComplete (*replaySubjectImpl).unsubscribeAll
 //@   track observers.* elem.* hook.* call.NewNotification*
@@ -259,6 +277,7 @@ package ro
 
 //@ func (*replaySubjectImpl).SubscribeWithContext
 //@   props C01 C03 C10 C13
+//@   binds subscriberCtx destination
 //@   ensures [one-critical-section|C10,C13] count(lock.mu) == 1 && heldat(mu, sub.ANY) && heldat(mu, loop.ANY)
 //@   alias sub=NewSubscriber()
 //@   track call.NewSubscriber observers.* NewSubscriber().* loop.*
@@ -271,6 +290,7 @@ package ro
 
 //@ func (*replaySubjectImpl).SubscribeWithContext$1
 //@   props C03 C10
+//@   binds index
 //@   track observers.*
 //@   ensures [teardown-unregisters-own-entry|C03,C10] trace(observers.Delete(index))
 
@@ -303,6 +323,7 @@ package ro
 
 //@ func (*unicastSubjectImpl).NextWithContext
 //@   props C01 C02 C10 C13
+//@   binds s ctx value
 //@   ensures [one-critical-section|C10,C13] count(lock.mu) == 1
 //@   requires s.bufferSize >= -1
 //@   track observer.* hook.* call.NewNotification*
@@ -314,6 +335,7 @@ package ro
 
 //@ func (*unicastSubjectImpl).ErrorWithContext
 //@   props C01 C02 C10 C13
+//@   binds ctx err
 //@   ensures [one-critical-section|C10,C13] count(lock.mu) == 1
 //@   track observer.* hook.* call.NewNotification*
 //@   ensures [open-stores-error|C01,C10] atlock(status) == 0 ==> atunlock(status) == 1 && atunlock(err).A == ctx && atunlock(err).B == err && atunlock(observer) == nil
@@ -322,6 +344,7 @@ package ro
 
 //@ func (*unicastSubjectImpl).CompleteWithContext
 //@   props C01 C02 C10 C13
+//@   binds ctx
 //@   ensures [one-critical-section|C10,C13] count(lock.mu) == 1
 //@   track observer.* hook.* call.NewNotification*
 //@   ensures [open-stores-completion|C01,C10] atlock(status) == 0 ==> atunlock(status) == 2 && atunlock(observer) == nil
@@ -330,6 +353,7 @@ package ro
 
 //@ func (*unicastSubjectImpl).SubscribeWithContext
 //@   props C01 C03 C10 C13 C02 C05
+//@   binds subscriberCtx destination
 //@   ensures [one-critical-section|C05,C10,C13] count(lock.mu) == 1 && heldat(mu, sub.ANY) && heldat(mu, loop.ANY)
 //@   alias sub=NewSubscriber()
 //@   track call.NewSubscriber NewSubscriber().* loop.*
